@@ -604,6 +604,51 @@ pub fn c12(cx: &mut Ctx) {
         sc["keep"] = json!(cx.rng.gen_bool(0.5));
         cx.push(sc);
     }
+    // the same over a real socket pair with SCM_RIGHTS: small messages (each fits the window and
+    // is received whole), at most 8 descriptors per message
+    for _ in 0..(if cx.thorough { 1500 } else { 150 }) {
+        let k = cx.rng.gen_range(1..=3);
+        let mut s = vec![];
+        let oo = Opts { max_body: 20, max_uri: 10, fancy: false, max_extra_headers: 2, expect_prob: 0.2 };
+        for _ in 0..k {
+            s.extend(gram::valid(&mut cx.rng, &oo).bytes());
+        }
+        if cx.rng.gen_bool(0.3) {
+            let cutoff = cx.rng.gen_range(1..s.len());
+            s.truncate(cutoff);
+        }
+        let mut cuts: Vec<usize> = (1..s.len()).filter(|_| cx.rng.gen_bool(0.06)).collect();
+        // no message longer than 200 bytes
+        let mut last = 0;
+        let mut extra = vec![];
+        for &c in cuts.iter().chain(std::iter::once(&s.len())) {
+            let mut p = last + 200;
+            while p < c {
+                extra.push(p);
+                p += 200;
+            }
+            last = c;
+        }
+        cuts.extend(extra);
+        cuts.sort();
+        cuts.dedup();
+        let mut evs = vec![];
+        for c in gram::cut(&s, &cuts) {
+            if c.is_empty() {
+                continue;
+            }
+            let nf = *[0usize, 0, 0, 1, 1, 2, 8].choose(&mut cx.rng).unwrap();
+            let fds: Vec<i64> = (0..nf).map(|_| { cx.next_tag += 1; cx.next_tag }).collect();
+            evs.push(rd_fds(&c, &fds));
+            if cx.rng.gen_bool(0.1) {
+                evs.push(rd_err(libc::EAGAIN));
+            }
+        }
+        let mut sc = script(51200, &["files", "fdleak", "res", "popped"], 0, evs, "fds_real_socket");
+        sc["keep"] = json!(cx.rng.gen_bool(0.5));
+        sc["real_socket"] = json!(true);
+        cx.push(sc);
+    }
 }
 
 // ---------------------------------------------------------------------------------------
